@@ -25,6 +25,7 @@ VARIABLES l, viols, done,
           lay,       \* memory layout (from the reset line)
           pristine,  \* policy snapshot right after the configuration in force was applied (<<>>: not known)
           pristine0, \* policy snapshot right after boot
+          taint,     \* containers whose cached resources a REJECTED configuration changed and nothing has re-decided since
           stopped,   \* containers that have been stopped (C09: they never hold resources again)
           broken,    \* currently broken (predicate, witness) pairs -- for attribution to the breaking step
           mems0,     \* memory nodes a container had when it was created (C12)
@@ -36,7 +37,7 @@ Trace == ndJsonDeserialize(IOEnv.TRACE_FILE)
 N     == Len(Trace)
 E     == Trace[l]
 
-lvars == <<vars, l, viols, done, world, pol, mem, lay, pristine, pristine0, stopped, broken, mems0, excused, topo>>
+lvars == <<vars, l, viols, done, world, pol, mem, lay, pristine, pristine0, taint, stopped, broken, mems0, excused, topo>>
 
 Has(r, f) == f \in DOMAIN r
 SetOf(s)  == {s[i] : i \in DOMAIN s}
@@ -245,9 +246,13 @@ C13Step ==
          (IF Ok /\ Get(E, "same", FALSE) /\ chg # {}
           THEN {V("Act_ReconfigSameIsNoop", IF emptiedOnly THEN "unchanged-config-emptied-cpuset-in-starved-pool"
                                             ELSE IF chg \subseteq pend THEN "unchanged-config-flushed-changes-left-pending"
+                                            \* F-C13-3 consequence: the cache still held what a configuration rejected while being
+                                            \* applied had written; re-applying the configuration in force writes the grants' values back
+                                            ELSE IF chg \subseteq taint THEN "unchanged-config-redecided-what-a-rejected-configuration-left"
                                             ELSE "unchanged-config-changed-container-resources" \o OverSub, chg)} ELSE {})
          \cup (IF Ok /\ Get(E, "same", FALSE) /\ chgRt # {}
                THEN {V("Act_ReconfigSameIsNoop", IF chgRt \subseteq pend THEN "unchanged-config-flushed-changes-left-pending"
+                                                 ELSE IF chgRt \subseteq taint THEN "unchanged-config-redecided-what-a-rejected-configuration-left"
                                                  ELSE "unchanged-config-pushed-different-resources" \o OverSub, chgRt)} ELSE {})
          \cup (IF E.err /\ ~ResSame(ctrs, ctrs')
                THEN {V("Act_RejectedIsNoop", "rejected-at-" \o Get(E, "rejkind", "unknown") \o "-changed-container-resources" \o OverSub,
@@ -353,7 +358,7 @@ TrReset ==
             /\ pristine0' = E.st.pol
     /\ pods' = {} /\ ctrs' = <<>> /\ req' = <<>> /\ pend' = {} /\ rt' = <<>> /\ rtlive' = {} /\ residue' = {} /\ evpend' = {}
     /\ reply' = Reply("reset", None, FALSE, <<>>, <<>>, <<>>)
-    /\ stopped' = {} /\ broken' = {} /\ mems0' = <<>> /\ excused' = {} /\ topo' = SetOf(Get(E, "topo", <<>>))
+    /\ stopped' = {} /\ broken' = {} /\ mems0' = <<>> /\ excused' = {} /\ topo' = SetOf(Get(E, "topo", <<>>)) /\ taint' = {}
     /\ l' = l + 1 /\ UNCHANGED <<viols, done>>
 
 \* a request whose post-state was logged
@@ -374,6 +379,9 @@ TrStep ==
                          ELSE IF Quiet(ctrs') THEN E.st.pol ELSE IF Get(E, "same", FALSE) THEN pristine ELSE <<>>)
                    ELSE pristine
     /\ UNCHANGED pristine0
+    /\ taint' = IF E.ev = "Reconfigure" /\ E.err
+                THEN taint \cup {c \in DOMAIN ctrs \cap DOMAIN ctrs' : ctrs[c].res # ctrs'[c].res}
+                ELSE {c \in taint \cap DOMAIN ctrs \cap DOMAIN ctrs' : ctrs'[c].res = ctrs[c].res}
     /\ reply' = Reply(E.ev, Get(E, "c", None), E.err, <<>>, <<>>, <<>>)
     /\ mems0' = IF E.ev = "Create" THEN (E.c :> SetOf(Get(E, "mems0l", <<>>))) @@ mems0 ELSE mems0
     /\ stopped' = CASE E.ev \in {"Stop"} -> stopped \cup {E.c}
@@ -408,20 +416,20 @@ TrNoState ==
     /\ viols' = viols \o SetToSeq(
           (IF Has(E, "hang") THEN {V("Act_Returns", "handler-did-not-return-" \o E.ev, E.ev)} ELSE C14Step))
     /\ l' = l + 1
-    /\ UNCHANGED <<vars, done, world, pol, mem, lay, pristine, pristine0, stopped, broken, mems0, excused, topo>>
+    /\ UNCHANGED <<vars, done, world, pol, mem, lay, pristine, pristine0, taint, stopped, broken, mems0, excused, topo>>
 
 Finish ==
     /\ l = N + 1 /\ ~done
     /\ ndJsonSerialize(IOEnv.VIOL_FILE, viols)
     /\ PrintT("CONSUMED " \o ToString(l - 1))
     /\ done' = TRUE
-    /\ UNCHANGED <<vars, l, viols, world, pol, mem, lay, pristine, pristine0, stopped, broken, mems0, excused, topo>>
+    /\ UNCHANGED <<vars, l, viols, world, pol, mem, lay, pristine, pristine0, taint, stopped, broken, mems0, excused, topo>>
 
 TraceInit ==
     /\ l = 1 /\ viols = <<>> /\ done = FALSE
     /\ world = [policy |-> "none", pincpu |-> TRUE, pinmemory |-> TRUE, prefershared |-> FALSE, typenopin |-> {}]
     /\ pol = <<>> /\ mem = [zone |-> <<>>, size |-> <<>>] /\ lay = [nodes |-> {}, type |-> <<>>, cap |-> <<>>, normal |-> {}]
-    /\ pristine = <<>> /\ pristine0 = <<>> /\ stopped = {} /\ broken = {} /\ mems0 = <<>> /\ excused = {} /\ topo = {}
+    /\ pristine = <<>> /\ pristine0 = <<>> /\ taint = {} /\ stopped = {} /\ broken = {} /\ mems0 = <<>> /\ excused = {} /\ topo = {}
     /\ pods = {} /\ ctrs = <<>> /\ req = <<>> /\ pend = {} /\ rt = <<>> /\ rtlive = {} /\ residue = {} /\ evpend = {}
     /\ reply = Reply("Init", None, FALSE, <<>>, <<>>, <<>>)
 
